@@ -190,7 +190,25 @@ class Judge:
                     return True
                 if isinstance(t.ops[0], ast.NotIn):
                     return False
+            # x = container.get(key) ... `x is not None`: the key is present
+            if isinstance(t, ast.Compare) and len(t.ops) == 1 and isinstance(t.left, ast.Name) and t.left.id in got \
+                    and isinstance(t.comparators[0], ast.Constant) and t.comparators[0].value is None:
+                if isinstance(t.ops[0], ast.IsNot):
+                    return True
+                if isinstance(t.ops[0], ast.Is):
+                    return False
             return None
+        got = set()
+        stores = {}
+        for n in walk_function(self.f.node):
+            if isinstance(n, ast.Name) and isinstance(n.ctx, ast.Store):
+                stores[n.id] = stores.get(n.id, 0) + 1
+        for n in walk_function(self.f.node):
+            if isinstance(n, ast.Assign) and len(n.targets) == 1 and isinstance(n.targets[0], ast.Name) \
+                    and isinstance(n.value, ast.Call) and isinstance(n.value.func, ast.Attribute) and n.value.func.attr == 'get' \
+                    and len(n.value.args) == 1 and norm(n.value.func.value) == ct and norm(n.value.args[0]) == kt \
+                    and stores.get(n.targets[0].id) == 1:
+                got.add(n.targets[0].id)
         return self.test_edges(pred)
 
     def g_iter(self, site, container, key):
@@ -257,8 +275,8 @@ class Judge:
             def pred(t, name=arg.id):
                 if isinstance(t, ast.Compare) and len(t.ops) == 1 and isinstance(t.left, ast.Name) and t.left.id == name:
                     lit = A.const_str(t.comparators[0])
-                    if lit is not None and isinstance(t.ops[0], ast.In) and set(lit) <= digits and lit:
-                        return True
+                    if lit is not None and isinstance(t.ops[0], (ast.In, ast.NotIn)) and set(lit) <= digits and lit:
+                        return isinstance(t.ops[0], ast.In)
                 if isinstance(t, ast.Compare) and len(t.ops) == 2 and isinstance(t.comparators[0], ast.Name) \
                         and t.comparators[0].id == name and all(isinstance(o, ast.LtE) for o in t.ops):
                     lo, hi = A.const_str(t.left), A.const_str(t.comparators[1])
